@@ -169,9 +169,11 @@ func TestVerifC01(t *testing.T) {
 
 	maxFrames := run.N(3000, 20000)
 	var totAllocs, totFrees, totOOM, totRealloc int
-	run.Cases(run.N(400, 20000), func(c *vlib.Case) {
+	run.Cases(run.N(1000, 60000), func(c *vlib.Case) {
 		r := c.R.Fork(0xC01)
-		cfg := pmmvGenConfig(r.Fork(1), pmmvGenOpts{MaxFrames: maxFrames, ForceBoundary: r.Intn(4) == 0})
+		mf := maxFrames
+		big := r.Intn(25) == 0
+		cfg := pmmvGenConfig(r.Fork(1), pmmvGenOpts{MaxFrames: mf, Big: big, ForceBoundary: r.Intn(4) == 0})
 		hr := r.Fork(2)
 		opBudget := hr.Range(100, 600)
 		if run.Thorough() {
@@ -204,6 +206,9 @@ func TestVerifC01(t *testing.T) {
 			m.set(pr, off, pmmvEarly)
 		}
 		run.Count("early_frames", int64(len(env.maps)))
+		if len(env.maps) >= 2 {
+			run.Count("configs_with_2_or_more_early_frames", 1)
+		}
 
 		h := &c01Hist{c: c, run: run, m: m}
 		h.drain()
